@@ -275,7 +275,15 @@ def main(argv=None):
         # inside `await response_queue.join()` and no longer watches its tasks
         S = corpus.scripts()
         focus = [c for c in plan if S[c["script"]][-1][0] == "quit" and c["cut"] in ("vanish_rst", "ctl_rst", "ctl_fin") and c["k"] >= npilot_events.get((c["script"], c["seed"]), 0) - 14]
-        plan = focus + plan + extra
+        # step-granular sub-sweep: Server.close() at every event-loop step of the connect / greeting
+        # / login window (a connection accepted but whose dispatcher has not started yet is
+        # unknown to close())
+        stepsweep = []
+        for sname in ("idle", "stor_retr"):
+            for sd in seeds[:2]:
+                for k in range(1, 140):
+                    stepsweep.append({"script": sname, "seed": sd * 100 + 77, "cut": "server_close", "k": k, "unit": "step", "net": {"latency": [0.0, 0.0], "send_delay": 0.0, "accept_delay": [0.0, 0.0]}})
+        plan = stepsweep + focus + plan + extra
         if quick:
             # quick tier: a seeded sample of the sweep that fits the budget; thorough does it all
             plan = plan[: 9000]
